@@ -778,11 +778,16 @@ fn bulk_scenario(r: &mut Report, seed: u64, k: u64) {
     match err_a {
         Some(e) => viol(r, "C12/unicast-truncated", format!("the requesting client did not receive its unicasts intact: {} (received so far: {:?})", e, got_a.iter().map(describe).collect::<Vec<_>>())),
         None => {
-            let big_ok = got_a[0].len() == n && got_a[0].iter().enumerate().all(|(i, b)| *b == bulk_byte(i, k));
+            // the broadcast comes from another thread: it may be queued before, between or after the handler's two unicasts
+            // (building the large message takes the handler a while); the unicasts themselves keep their order
+            let xb = format!("XB:{}", k).into_bytes();
+            let nxb = got_a.iter().filter(|m| **m == xb).count();
+            let uni: Vec<&Vec<u8>> = got_a.iter().filter(|m| **m != xb).collect();
+            let big_ok = uni.len() == 2 && uni[0].len() == n && uni[0].iter().enumerate().all(|(i, b)| *b == bulk_byte(i, k));
             if !big_ok {
-                viol(r, "C12/unicast-truncated", format!("first message has {} bytes / wrong content instead of the {}-byte unicast", got_a[0].len(), n));
-            } else if got_a[1] != format!("TAIL:{}", k).as_bytes() || got_a[2] != format!("XB:{}", k).as_bytes() {
-                viol(r, "C12/unicast-lost", format!("after the large unicast the client received {:?} instead of TAIL and the broadcast", got_a[1..].iter().map(describe).collect::<Vec<_>>()));
+                viol(r, "C12/unicast-truncated", format!("the client received {:?} instead of the {}-byte unicast, TAIL and one broadcast", got_a.iter().map(describe).collect::<Vec<_>>(), n));
+            } else if *uni[1] != format!("TAIL:{}", k).into_bytes() || nxb != 1 {
+                viol(r, "C12/unicast-lost", format!("besides the large unicast the client received {:?} instead of TAIL and exactly one broadcast", got_a.iter().map(describe).collect::<Vec<_>>()));
             } else {
                 r.count("bulk_unicasts_intact", 1);
                 r.count("bulk_bytes_delivered", n as u64);
